@@ -11,16 +11,31 @@ DATED_MIN = 21      # "YYYY-mm-ddTHH:MM:SS" (19) + " " + "\n"
 FILL = b"abcdefghijklmnopqrstuvwxyz ABCDEFGHIJKLMNOPQRSTUVWXYZ"
 
 
-def render(layout, t0=0):
-    """bytes of the log with that layout.  Dated lines carry strictly increasing seconds;
-    undated lines contain no digit at all (no pattern can date them)."""
+NOTATIONS = ("iso", "epoch_frac", "epoch", "yearless")
+
+
+def stamp(notation, t):
+    """the timestamp text of the t-th second"""
+    if notation == "iso":
+        return (datetime.datetime(2001, 1, 1) + datetime.timedelta(seconds=t)).strftime("%Y-%m-%dT%H:%M:%S").encode()
+    if notation == "epoch_frac":
+        return b"%d.%03d" % (1704067200 + t, t % 1000)
+    if notation == "epoch":
+        return b"%d" % (1704067200 + t)
+    if notation == "yearless":          # syslog style, no year: "Jan  2 03:04:05"
+        return (datetime.datetime(2024, 1, 2, 3, 4, 5) + datetime.timedelta(seconds=t)).strftime("%b %e %H:%M:%S").encode()
+    raise ValueError(notation)
+
+
+def render(layout, t0=0, notation="iso"):
+    """bytes of the log with that layout.  Dated lines carry strictly increasing seconds in the given
+    notation; undated lines contain no digit at all (no pattern can date them)."""
     out = []
-    base = datetime.datetime(2001, 1, 1)
     t = t0
     for ln, dated in layout:
         if dated:
             assert ln >= DATED_MIN, ln
-            ts = (base + datetime.timedelta(seconds=t)).strftime("%Y-%m-%dT%H:%M:%S").encode()
+            ts = stamp(notation, t)
             t += 1
             body = ln - 1 - len(ts) - 1
             out.append(ts + b" " + (FILL * (body // len(FILL) + 1))[:body] + b"\n")
@@ -32,8 +47,8 @@ def render(layout, t0=0):
     return b"".join(out)
 
 
-def write_log(path, layout, container="plain"):
-    data = render(layout)
+def write_log(path, layout, container="plain", notation="iso"):
+    data = render(layout, notation=notation)
     if container == "plain":
         with open(path, "wb") as f:
             f.write(data)
@@ -133,6 +148,8 @@ def parse_summary(err):
         if not m:
             return None
         out[k] = int(m[-1])
+        if k == "syslines":
+            out["printed_syslines"] = int(m[0])      # first occurrence: the Printed section
     for k, rx in _DROP.items():
         m = re.search(rx, err)
         if not m:
@@ -227,3 +244,62 @@ def avoid_edges(layout, bs):
         out.append((ln, dated))
         off += ln
     return out
+
+
+def sim_cur(layout, bs, streamed, lag):
+    """python transliteration of Model/Retain.v for the CURRENT policy and the schedule sched_lag lag
+    (lag = 1: the consumer keeps up).  Returns (blocks high, lines high, syslines high, drop errors).
+    Used for large files where vm_compute would be slow; cross-checked against the Coq model on every
+    B case of every run."""
+    msgs = messages(layout)
+    spans = line_spans(layout, bs)
+    n = len(msgs)
+    blocks = set()
+    lines = set()
+    stored = []            # message indexes, increasing
+    hb = hl = hs = 0
+    nread = 0
+    derr = 0
+
+    def read_line(i):
+        nonlocal hb, hl, nread
+        for b in range(nread, spans[i][1] + 1):
+            blocks.add(b)
+            if len(blocks) > hb:
+                hb = len(blocks)
+            if streamed and b > 0:
+                blocks.discard(b - 1)
+            nread = b + 1
+        lines.add(i)
+        if len(lines) > hl:
+            hl = len(lines)
+
+    for k in range(n):
+        a, z = msgs[k]
+        for i in range(a if k == 0 else a + 1, z + 1):
+            read_line(i)
+        if k + 1 < n:
+            read_line(msgs[k + 1][0])
+        stored.append(k)
+        if len(stored) > hs:
+            hs = len(stored)
+        if k == 0 or k == n - 1 or k < 2:
+            continue
+        f = spans[msgs[k - 1][0]][0]
+        if f < 3:
+            continue
+        bo = f - 2
+        low = k - lag + 1            # held = {low .. k}
+        j = 0
+        while j < len(stored) and spans[msgs[stored[j]][1]][1] <= bo:
+            m = stored[j]
+            if m >= low:
+                derr += 1
+            else:
+                for i in range(msgs[m][0], msgs[m][1] + 1):
+                    lines.discard(i)
+                    for b in range(spans[i][0], spans[i][1]):
+                        blocks.discard(b)
+            j += 1
+        del stored[:j]
+    return hb, hl, hs, derr
